@@ -74,6 +74,12 @@ func constantly(args ...any) Callable {
 }
 
 func call(fm *Frame, fn Callable, argsVal vals.List, optsVal vals.Map) error {
+	if argsVal == nil {
+		return errs.BadValue{What: "arguments", Valid: "list", Actual: "$nil"}
+	}
+	if optsVal == nil {
+		return errs.BadValue{What: "options", Valid: "map", Actual: "$nil"}
+	}
 	args := make([]any, 0, argsVal.Len())
 	for it := argsVal.Iterator(); it.HasElem(); it.Next() {
 		args = append(args, it.Elem())
